@@ -369,10 +369,13 @@ def calibration_seams(sim: sched.Sim):
             setattr(ad, name, orig)
 
 
-def run_calibration(scn: dict, *, simulate: bool = True, forced=None, compute_simulated: bool = False) -> dict:
+def run_calibration(scn: dict, *, simulate: bool = True, forced=None, compute_simulated: bool = False, reset: bool = True) -> dict:
     import pyxel
 
-    world.reset_process_state()
+    if reset:
+        world.reset_process_state()
+    else:
+        probes.reset()
     rec: dict[str, Any] = {"exc": None, "tree": None, "sim": None}
     with world.Scratch() as scratch:
         files = write_inputs(scn, scratch)
@@ -409,6 +412,7 @@ def run_calibration(scn: dict, *, simulate: bool = True, forced=None, compute_si
         rec["rng_restored"] = _state_eq(state0, np.random.get_state())
         rec["hist"] = list(probes.HIST)
         if sim is not None:
+            rec["rng"] = {"overlap": rs.overlap}
             rec["sim"] = {"digest": sim.digest(), "decisions": list(sim.decisions), "contested": sim.contested, "preemptions": sim.preemptions, "now": sim.now, "stats": dict(sim.stats), "broken": sim.broken}
     return rec
 
